@@ -3,6 +3,7 @@ package rules
 import (
 	"fmt"
 	"go/types"
+	"golang.org/x/tools/go/ssa"
 	"math/big"
 	"sort"
 	"strings"
@@ -43,6 +44,9 @@ func runC18(c *Ctx) {
 	r := c.R
 	r.Rule("C18.1", "go2schema: the JSON image of every specs-go type is admitted by the schema node it is validated against", 30)
 	r.Rule("C18.2", "validator-hook: the schema is consulted on read and on write through one funnel, and the CLI installs it", 3)
+
+	r.Rule("C18.3", "written-json-is-json: what (*Spec).write puts into a .json file stays JSON (a schema-checking JSON reader accepts it)", 1)
+	c18WrittenJSON(c)
 
 	sf := loadSchemaFiles(c, "C18.1")
 	specT := c.U.NamedType("specs", "Spec")
@@ -345,3 +349,52 @@ func floatToBig(f float64) *big.Int {
 }
 
 var _ = ir.ModulePrefix
+
+// c18WrittenJSON: between encoding/json.Marshal and the file, (*Spec).write only applies
+// a post-processor that replaces characters by four-digit \u escapes (which are JSON);
+// any other rewriting (YAML-only escapes such as \U0001FFFE) would make the file
+// unreadable for a JSON consumer such as the schema validator.
+func c18WrittenJSON(c *Ctx) {
+	r := c.R
+	w := c.fn("C18.3", "cdi", "(*Spec).write")
+	ps := c.fn("C18.3", "cdi", "ParseSpec")
+	if w == nil || ps == nil {
+		return
+	}
+	var decoderFn *ssa.Function
+	for _, call := range ir.Calls(ps) {
+		if f := call.Common().StaticCallee(); f != nil && (strings.Contains(f.String(), "Unmarshal") || strings.Contains(f.String(), "Decode")) {
+			decoderFn = f
+		}
+	}
+	n := 0
+	for _, call := range ir.Calls(w) {
+		f := c.U.StaticCallee(call)
+		if f == nil || !c.U.IsRepoFunc(f) || len(call.Common().Args) != 1 {
+			continue
+		}
+		if !strings.Contains(c.exprDesc(call.Common().Args[0]), "encoding/json.Marshal(") {
+			continue
+		}
+		n++
+		refused, where, derived := c.yamlReaderRefused(decoderFn)
+		if !derived {
+			r.Undecided("C18.3", "post-processor:"+c.U.RelName(f), c.pos(call), "the reader's character-range check was not found: "+where)
+			continue
+		}
+		jsonRaw := runeSet{{0x20, 0x10ffff}}.intersect(runeSet{{'"', '"'}, {'\\', '\\'}, {0x2028, 0x2029}, {0xd800, 0xdfff}}.complement())
+		bad := jsonRaw.intersect(refused.union(runeSet{{0x85, 0x85}}))
+		ok, detail := c09SanitizerOK(c, f, bad)
+		r.Check("C18.3", "post-processor:"+c.U.RelName(f), ok, c.U.Pos(f.Pos()), "the JSON text is post-processed by "+c.U.RelName(f)+" only by replacing characters with four-digit \\u escapes: "+detail)
+	}
+	if n == 0 {
+		// nothing between the encoder and the file
+		okPlain := false
+		for _, call := range ir.Calls(w) {
+			if f := call.Common().StaticCallee(); f != nil && f.String() == "encoding/json.Marshal" {
+				okPlain = true
+			}
+		}
+		r.Check("C18.3", "post-processor:none", okPlain, c.U.Pos(w.Pos()), "the output of encoding/json.Marshal is written as it is")
+	}
+}
